@@ -41,12 +41,20 @@ def ofInt (n : Int) : J := .num n
 def toInt? : J → Option Int
   | .num q => if q.den = 1 then some q.num else none
   | _ => none
+mutual
 /-- `json.dump` succeeds (no opaque Python objects inside) -/
-partial def serialisable : J → Bool
+def serialisable : J → Bool
   | .opq _ => false
-  | .arr l => l.all serialisable
-  | .obj l => l.all (fun (_, v) => serialisable v)
+  | .arr l => serList l
+  | .obj l => serFields l
   | _ => true
+def serList : List J → Bool
+  | [] => true
+  | x :: xs => serialisable x && serList xs
+def serFields : List (String × J) → Bool
+  | [] => true
+  | (_, v) :: xs => serialisable v && serFields xs
+end
 end J
 
 /-- `f"segment_{n:02d}"` -/
